@@ -353,6 +353,9 @@ def step (st : St) (toks : List String) : St × String :=
       (st, s!"labels={names e.labels} deps={names e.deps} subs={names e.subs} reg={if e.registered then 1 else 0} out={hex (e.apply (unhex (kvOf rest "text")))}")
   | ["subst.replace", s, old, new] => (st, hex (replaceAll (unhex s) (unhex old) (unhex new)))
   | ["subst.findws", s] => (st, ",".intercalate ((usedSpaces (unhex s)).map hex))
+  | ["exp.capture", cwd, name, pid] =>
+    let r := localCapturePaths (unhex cwd) (unhex name) (unhex pid)
+    (st, s!"{hex r.1} {hex r.2}")
   | ["exp.sanitize", s] => (st, hex (sanitize (unhex s)))
   | ["exp.safepath", base, args] => (st, hex (makeSafePath (unhex base) (hexList args)))
   | _ => (st, "bad-op")
